@@ -92,6 +92,13 @@ class C10Monitor(Monitor):
             self.generators(tree)
             self.synthetic(tree)
             self.pops = {d.id: [id(i) for i in d.current_population] for _, d in tree.all_demes}
+            # 'the current population' is the last recorded generation itself - the very same individuals, none dropped, merged, re-ordered or copied
+            for _, d in tree.all_demes:
+                h = d.history
+                if h and [id(i) for i in d.current_population] != [id(i) for i in h[-1]]:
+                    x.violate(f"C10/current-population-is-not-the-last-generation:{type(d).__name__}", f"{type(d).__name__} {d.id}: current_population has {len(d.current_population)} "
+                              f"individuals, the last recorded generation {len(h[-1])} (or not the same objects in the same order)")
+                x.extra_count("C10 current populations compared with the last generation")
         elif kind == "boundary":
             for _, p in tree.all_demes:
                 for c in p.children:
